@@ -36,6 +36,9 @@ func DefaultEnumType() *EnumType {
 }
 
 func NewEnumType(enums []string, caseInsensitive bool) *EnumType {
+	if len(enums) == 0 {
+		return DefaultEnumType()
+	}
 	if caseInsensitive {
 		top := len(enums)
 		if top > 0 {
